@@ -252,6 +252,63 @@ func runC09(c *mon.Ctx) {
 		c.Class("zero-copy-reader:store-intact")
 	}
 
+	// ---- a read fault reported together with a full-length slice must surface as an error ----------------
+	if c.Batch%4 == 1 {
+		n := c.Scale(200, 1000)
+		recs := genRecords(r, n)
+		ref := refmerkle.New(recs)
+		st, err := buildStore(recs)
+		if err == nil {
+			for k := 0; k < c.Scale(400, 4000); k++ {
+				m := 1 + r.IntN(n)
+				id := fmt.Sprintf("readfault:%d:%d", m, k)
+				var asked []int64
+				tlog.TreeHash(int64(m), tlog.HashReaderFunc(func(ix []int64) ([]tlog.Hash, error) {
+					asked = append(asked, ix...)
+					out := make([]tlog.Hash, len(ix))
+					for i, x := range ix {
+						out[i] = st[x]
+					}
+					return out, nil
+				}))
+				if len(asked) == 0 {
+					continue
+				}
+				bad := asked[r.IntN(len(asked))]
+				c.Eval(1)
+				if th, err := tlog.TreeHash(int64(m), faultyReader(st, bad)); err == nil && rH(th) != ref.Root(m) {
+					c.Violation("tree-hash-returned-despite-read-error", id, map[string]any{"m": m, "poisoned_index": bad})
+				}
+				// appending through a faulty reader must fail too (or still return the true hashes)
+				if m < n {
+					asked = asked[:0]
+					tlog.StoredHashes(int64(m), recs[m], tlog.HashReaderFunc(func(ix []int64) ([]tlog.Hash, error) {
+						asked = append(asked, ix...)
+						out := make([]tlog.Hash, len(ix))
+						for i, x := range ix {
+							out[i] = st[x]
+						}
+						return out, nil
+					}))
+					if len(asked) > 0 {
+						bad = asked[r.IntN(len(asked))]
+						hs, err := tlog.StoredHashes(int64(m), recs[m], faultyReader(st, bad))
+						if err == nil {
+							lo := refmerkle.StoredCount(int64(m))
+							for i, h := range hs {
+								if lo+int64(i) < int64(len(st)) && h != st[lo+int64(i)] {
+									c.Violation("stored-hashes-returned-despite-read-error", id, map[string]any{"record": m, "poisoned_index": bad})
+									break
+								}
+							}
+						}
+					}
+				}
+			}
+			c.Class("read-fault:error-propagated-or-result-correct")
+		}
+	}
+
 	// ---- several independent logs built at the same time (the hash functions are pure) ----------------
 	if c.Batch%4 == 3 {
 		const G = 8
